@@ -256,6 +256,7 @@ func evalC15Pair(a, b []byte) (vs []*Violation, res [64]bool) {
 		c.Extra = map[string]any{"other": string(b)}
 		vs = append(vs, &Violation{Property: "C15", Site: site, Rule: rule, Class: class, Detail: detail, Case: c})
 	}
+	defer recoverTo4("URICmp", add)
 	var ua, ub sipsp.PsipURI
 	ea, _ := sipsp.ParseURI(a, &ua)
 	eb, _ := sipsp.ParseURI(b, &ub)
@@ -327,6 +328,32 @@ func evalC15Pair(a, b []byte) (vs []*Violation, res [64]bool) {
 }
 
 var bmaskNames = []string{"user", "ttl", "method", "maddr"}
+
+// c15Alias: URIParseCmp / URIRawCmp on (a, b) and (b, a) where a and b are slices of one backing array must give what
+// they give on private copies of the same texts, including the handed-back URIs.
+func c15Alias(a, b []byte, prefixOf string) (vs []*Violation) {
+	pa, pb := append([]byte(nil), a...), append([]byte(nil), b...)
+	for _, fl := range []sipsp.URICmpFlags{0, 63, 16, 32} {
+		for _, sw := range []bool{false, true} {
+			x, y, px, py := a, b, pa, pb
+			if sw {
+				x, y, px, py = b, a, pb, pa
+			}
+			var r1, r2, q1, q2 sipsp.PsipURI
+			ok, e, w := sipsp.URIParseCmp(x, y, fl, &r1, &r2)
+			pok, pe, pw := sipsp.URIParseCmp(px, py, fl, &q1, &q2)
+			rok, re, rw := sipsp.URIRawCmp(x, y, fl)
+			if ok != pok || e != pe || w != pw || rok != pok || re != pe || rw != pw || !reflect.DeepEqual(r1, q1) || !reflect.DeepEqual(r2, q2) {
+				cs := mkCase("C15alias", "URIParseCmp", &Cfg{Flags: uint(fl)}, a, nil)
+				cs.Extra = map[string]any{"b": string(b), "prefix": prefixOf != "", "swapped": sw}
+				vs = append(vs, &Violation{Property: "C15", Site: "URIParseCmp", Rule: "entry-points-agree", Class: fmt.Sprintf("aliased-arguments/prefix=%v", prefixOf != ""),
+					Detail: fmt.Sprintf("%q vs %q flags %#x swapped=%v: aliased (%v,%v,%v) raw (%v,%v,%v) private copies (%v,%v,%v); r1=%+v/%+v r2=%+v/%+v", x, y, fl, sw, ok, e, w, rok, re, rw, pok, pe, pw, r1, q1, r2, q2), Case: cs})
+				return
+			}
+		}
+	}
+	return
+}
 
 func checkC15(r *Run) {
 	r.Assume = []string{"URI family generated from component menus, parameter/header lists free of duplicate names (as the property requires)",
@@ -408,6 +435,27 @@ func checkC15(r *Run) {
 			}
 		}
 	}
+	// argument aliasing: the two URIs handed to the raw / parse-and-compare entry points share one backing array
+	// (a URI and its own prefixes; two URIs laid out in one message buffer): same results as with private copies
+	parallelFor(r, N, func(c *enumCtx, i int) {
+		a := strs[i]
+		for k := 4; k <= len(a); k++ {
+			if k < len(a) && strings.IndexByte(";?:@&=", a[k]) < 0 && k != len(a)-1 {
+				continue // prefixes ending before a delimiter (and the one-byte-short prefix) are the interesting ones
+			}
+			for _, v := range c15Alias(a, a[:k], string(a[:k])) {
+				r.Col.add(v)
+			}
+			c.st.Transitions += 4
+		}
+		b := strs[(i*7+3)%N]
+		buf := append(append(append([]byte("To: <"), a...), ">, <"...), b...)
+		buf = append(buf, ">\r\n"...)
+		for _, v := range c15Alias(buf[5:5+len(a)], buf[5+len(a)+4:5+len(a)+4+len(b)], "") {
+			r.Col.add(v)
+		}
+		c.st.Evals++
+	})
 	r.St.sample(string(strs[0]))
 	r.St.sample(string(strs[len(strs)/2]))
 	r.Bounds["family_size"] = N
@@ -420,6 +468,15 @@ func init() {
 		o, _ := c.Extra["other"].(string)
 		vs, _ := evalC15Pair(c.input(), []byte(o))
 		return vs
+	}
+	replayers["C15alias"] = func(prop string, c *Case) []*Violation {
+		a := c.input()
+		bs, _ := c.Extra["b"].(string)
+		if pre, _ := c.Extra["prefix"].(bool); pre {
+			return c15Alias(a, a[:len(bs)], bs)
+		}
+		buf := append(append(append([]byte(nil), a...), "...."...), bs...)
+		return c15Alias(buf[:len(a)], buf[len(a)+4:], "")
 	}
 	replayers["C15laws"] = func(prop string, c *Case) []*Violation {
 		// the generator facts (same class / differing component) are recorded in the case; re-evaluate the law on the real code
